@@ -136,6 +136,17 @@ CHECKS["C09"] = {
     ],
 }
 
+CHECKS["C10"] = {
+    "harness": "c10",
+    "level": "exploration",
+    "floor": {"quick": 300, "thorough": 1000},
+    "timeout": {"quick": 1500, "thorough": 7200},
+    "assumptions": [
+        "triangles are pairwise distinct up to rotation (the triangle->partition lookup is keyed by triangle)",
+        "DeletePartitions is followed by the caller protocol get -> set -> rebuild; after a bare reassignment only coverage/alignment are demanded in memory, maps and weights after the rebuild or on the saved file",
+    ],
+}
+
 for _pid, _floor in (("C18", 1000), ("C19", 1000), ("C20", 1000)):
     CHECKS[_pid] = {
         "harness": _pid.lower(),
